@@ -295,12 +295,16 @@ class Ctx:
     def write_replay(self, payload, suffix=""):
         d = os.path.join(VERIF, "replays")
         os.makedirs(d, exist_ok=True)
+        if os.environ.get("VERIF_HISTORY_REPLAY"):
+            suffix += ".history-replay"       # a replay repeating a run must not overwrite the file it replays
         path = os.path.join(d, "%s-%s-%d%s.json" % (self.prop, self.tier, self.seed, suffix))
         with open(path, "w") as f:
             json.dump(payload, f, indent=1, default=repr)
         return os.path.relpath(path, VERIF)
 
     def write_evidence(self, violations):
+        if os.environ.get("VERIF_HISTORY_REPLAY"):
+            return                           # evidence describes checks, not replays
         proof = self.proof or {}
         thms = proof.get("theorems", [])
         n_obl = len(thms)
@@ -344,6 +348,8 @@ class Ctx:
             json.dump(ev, f, indent=1, default=repr)
 
     def finish(self, search=None, witnesses=None):
+        if os.environ.get("VERIF_HISTORY_REPLAY"):
+            search = None                    # a replay repeats the run; it does not start a new search
         """Apply the violation protocol. `search(ctx)` is the failing-input search run when the
         proof side or the correspondence broke without an oracle failure; it records through
         ctx.oracle_fail.  `witnesses` maps known-finding key -> callable returning True when the
